@@ -79,8 +79,10 @@ def solve_and_judge(case, which, in_situ=True):
     if any(z['gov'].get('bonds') and any(c.get('hh', {}).get('bond_share') for c in z['countries'] if c['role'] != 'central')
            for z in spec['zones']):
         rec.count('models.judged.with_three_asset_portfolio')
-    if case.get('build_opts', {}).get('codes'):
+    if case.get('build_opts', {}).get('codes') and any('GOOD' in v or 'SRV' in v or 'LAB' in v for v in case['build_opts']['codes'].values()):
         rec.count('models.judged.with_prefix_related_market_codes_and_household_in_both')
+    if case.get('build_opts', {}).get('codes') and any(v.get('GOV') == 'HHGOV' for v in case['build_opts']['codes'].values()):
+        rec.count('models.judged.with_issuer_code_containing_a_holders_code')
     if any(z.get('cross_buy') for z in spec['zones']):
         rec.count('models.judged.with_households_buying_in_another_regions_market')
     if getattr(b, 'currency_members_overwritten', 0):
@@ -137,6 +139,15 @@ def gen_case(rng, idx, tier, emphasis=None):
         spec = M.gen_federation_with_region_asset_markets(rng, all_tobin=(idx % 16 == 6), caps=(idx % 16 == 14))
     else:
         spec = M.gen_spec(rng)
+        if idx % 16 == 7:
+            # custom issuer codes that CONTAIN the codes of other sectors (a household 'HH' next to the issuer 'HHGOV' / 'HHTRE',
+            # a business 'BUS' next to the central bank 'CBUS'); the first zone has interest-bearing deposits and money
+            M.force_share_portfolio_with_own_lag(rng, spec)
+            forced_codes = {}
+            for z in spec['zones']:
+                for c in z['countries']:
+                    if c['role'] in ('single', 'central'):
+                        forced_codes[c['key']] = {'GOV': 'HHGOV', 'TRE': 'HHTRE', 'CB': 'CBUS'}
     return {'kind': 'model', 'spec': spec, 'ext_first': rng.random() < 0.7,
             'build_opts': {'query_zone': rng.random() < 0.3, 'interleave_model': idx % 2 == 0 or rng.random() < 0.2,   # r == 2 is even
                            'region_default_currency': rng.random() < 0.4,
@@ -171,7 +182,8 @@ class C01(object):
                          'models.judged.with_three_asset_portfolio',
                          'models.judged.with_holder_declaring_its_own_lagged_deposits',
                          'models.judged.with_households_buying_in_another_regions_market',
-                         'retry_after_refusal.judged')
+                         'retry_after_refusal.judged',
+                         'models.judged.with_issuer_code_containing_a_holders_code')
     which = ('zone', 'ledger')
 
     def n_cases(self, tier):
